@@ -35,8 +35,7 @@ def to_json(predicate: Predicate) -> dict[str, Any]:
             case AnyPredicate(any_predicate):
                 return "any", {"predicate": to_json(any_predicate)}
             case FnPredicate(predicate_fn):
-                code = getattr(predicate_fn, "__code__", None)
-                name = code.co_name if code else getattr(predicate_fn, "__name__", repr(predicate_fn))
+                name = getattr(predicate_fn, "__name__", repr(predicate_fn))
                 return "fn", {"name": name}
             case IsFalsyPredicate():
                 return "is_falsy", None
